@@ -561,6 +561,7 @@ type GrammarPlan struct {
 	Cover       [2]int // quick, thorough: transition / near-miss cover
 	NDocs       [2]int
 	TraceModule string
+	PrinterKind string // "query" | "schemadoc": how Printer.tla's own parser reads a text of this grammar
 	ClassOf     func(lexer.Token) string
 	MutPool     []string
 	// Gen produces document i: its tree, its tokens, and whether a grammar fault was injected on purpose.
@@ -605,6 +606,12 @@ func runGrammarCheck(c *core.Ctx, gb *GrammarBind, plan GrammarPlan) {
 	var events []int64
 	texts := map[int]string{}
 	intent := 0
+	type intentCase struct {
+		text      string
+		gen, real []GT
+		ok        bool
+	}
+	var intentCases []intentCase
 	id := 0
 	add := func(text string) {
 		cls, lex, ok := lexClasses(text, plan.ClassOf)
@@ -632,6 +639,7 @@ func runGrammarCheck(c *core.Ctx, gb *GrammarBind, plan GrammarPlan) {
 		tree, ok, crash := gb.Parse(text)
 		if crash == "" && !faulty && (!ok || !gtListEqual(gb.Norm(doc), gb.Norm(tree))) {
 			intent++
+			intentCases = append(intentCases, intentCase{text: text, gen: gb.Norm(doc), real: gb.Norm(tree), ok: ok})
 			exp := gtListString(gb.Norm(doc))
 			obs := "rejected"
 			if ok {
@@ -680,8 +688,47 @@ func runGrammarCheck(c *core.Ctx, gb *GrammarBind, plan GrammarPlan) {
 			_ = pok
 			c.Violation(fmt.Sprintf(plan.TraceModule+" %s: text %q expected %s, observed %s", b.Class, text, m.Expected, m.Observed), m)
 		}
-		if intent > 0 && len(bad) == 0 {
-			c.Internal("generator and specification disagree: %d generated documents did not parse to the generated tree although the specification accepts the parser's result", intent)
+		if intent > 0 {
+			// The trace above gave the specification the REAL lexer's tokens, so a lexer defect is
+			// invisible to it. Third witness: the specification's own lexer and parser (Printer.tla)
+			// read the text. If they obtain the generated tree, the library is wrong; if they do
+			// not, generator and specification disagree (a diagnostic, no verdict).
+			var plines [][]byte
+			var pevents []int64
+			for k, ic := range intentCases {
+				gen, real := ic.gen, ic.real
+				if plan.PrinterKind == "schemadoc" {
+					gen, real = mergeSchemaItems(gen), mergeSchemaItems(real)
+				}
+				if real == nil {
+					real = []GT{}
+				}
+				b, _ := json.Marshal(map[string]any{"id": k + 1, "kind": plan.PrinterKind, "tree": toGTc(gen), "t1": cps(ic.text), "reparsed": ic.ok, "d1": toGTc(real), "t2": cps(ic.text), "locs": locCps(), "argsep": false})
+				plines = append(plines, b)
+				pevents = append(pevents, int64(len(cps(ic.text))))
+			}
+			pcfg := "SPECIFICATION Spec\nCONSTANTS\n  LexDevs = " + core.DevSetTLA(LexerDevsQuiet()) + "\n  GrammarDevs = " + core.DevSetTLA(devs) + "\n  PrinterDevs = {}\nCHECK_DEADLOCK FALSE\n"
+			pbad, pok := RunTrace(c, TraceJob{Module: "Printer_Trace", CfgText: pcfg, Lines: plines, Events: pevents, Shards: 8, Stack: "512m", Heap: "3g"})
+			if pok {
+				for _, raw := range pbad {
+					var b struct {
+						ID    int    `json:"id"`
+						Class string `json:"class"`
+					}
+					json.Unmarshal(raw, &b)
+					ic := intentCases[b.ID-1]
+					if strings.HasPrefix(b.Class, "re-parsed document differs") || strings.HasPrefix(b.Class, "the library does not parse") {
+						obs := "rejected"
+						if ic.ok {
+							obs = gtListString(ic.real)
+						}
+						c.Violation(fmt.Sprintf("generated document (the specification's own lexer and parser read it as generated): text %q expected %s, observed %s", ic.text, gtListString(ic.gen), obs),
+							GrammarMismatch{Kind: "tree", Source: "generator + Printer.tla SpecParse", Text: ic.text, Expected: gtListString(ic.gen), Observed: obs})
+					} else {
+						c.Diagnostic("generator and specification disagree on %q: %s", clip(ic.text, 300), b.Class)
+					}
+				}
+			}
 		}
 	}
 }
